@@ -21,9 +21,23 @@ use surf_n_term::{
 };
 use verif_harness::{
     Cfg, guarded,
-    out::{Out, hex},
+    out::Out,
     r#gen::Rng,
 };
+
+/// `verif_harness::out::hex` (lower case, `-` for the empty string), without a `format!` per byte: pastes of
+/// 64 KiB are printed several times
+fn hex(bytes: &[u8]) -> String {
+    if bytes.is_empty() {
+        return "-".to_string();
+    }
+    let mut s = String::with_capacity(bytes.len() * 2);
+    for b in bytes {
+        s.push(b"0123456789abcdef"[(b >> 4) as usize] as char);
+        s.push(b"0123456789abcdef"[(b & 15) as usize] as char);
+    }
+    s
+}
 
 /* ================================================================ messages */
 
@@ -56,10 +70,10 @@ impl Channel {
 
 #[derive(Clone, Debug, PartialEq, Eq)]
 pub enum ColorSpec {
-    /// `#rrggbb`
-    Hash(u64, u64, u64),
-    /// `rgb:r/g/b`
-    Rgb(Channel, Channel, Channel),
+    /// `#rrggbb`, hex digits in lower or upper case
+    Hash(u64, u64, u64, bool),
+    /// `rgb:r/g/b`, hex digits in lower or upper case
+    Rgb(Channel, Channel, Channel, bool),
 }
 
 #[derive(Clone, Copy, Debug, PartialEq, Eq)]
@@ -83,6 +97,16 @@ pub enum SgrItem {
     Underline(u64),
     /// role 0 foreground, 1 background, 2 underline colour
     Rgb { role: u64, r: u64, g: u64, b: u64, form: ColorForm },
+    /// palette colour `38 ; 5 ; n` or `38 : 5 : n` (also 48, 58)
+    Palette { role: u64, index: u64, colon: bool },
+    /// named colour 0–15: foreground `30+i` / `90+(i-8)`, background `40+i` / `100+(i-8)`
+    Named { background: bool, index: u64 },
+    /// `21`: doubly underlined (ECMA-48)
+    DoubleUnderline,
+    /// `4 : s` with s in 0..=5 (`4:0` no underline, `4:1` straight)
+    UnderlineColon(u64),
+    /// an empty parameter: default, i.e. reset (`CSI m` is `[Empty]`)
+    Empty,
 }
 
 #[derive(Clone, Copy, Debug, PartialEq, Eq)]
@@ -119,8 +143,8 @@ pub enum Msg {
     KeyboardLevel(u64),
     /// kitty keyboard `CSI code[:alt…] [; 1+mods] u`
     CsiU { code: u64, alts: Vec<u64>, mods: Option<u64> },
-    /// kitty graphics response `APC G i=id[,p=placement] ; OK|message ST`
-    KittyImage { id: u64, placement: Option<u64>, error: Option<Vec<u8>> },
+    /// kitty graphics response `APC G i=id[,I=number][,p=placement] ; OK|message ST`
+    KittyImage { id: u64, number: Option<u64>, placement: Option<u64>, error: Option<Vec<u8>> },
     /// bracketed paste
     Paste(Vec<u8>),
     /// SGR sequence `CSI params m`
@@ -329,14 +353,19 @@ fn utf8(cp: u32) -> Vec<u8> {
     v.into_iter().map(|b| b as u8).collect()
 }
 
-/// lower case hexadecimal with exactly `n` digits
-fn hex_fixed(n: u32, v: u64) -> Vec<u8> {
+/// hexadecimal with exactly `n` digits, lower or upper case
+fn hex_fixed_c(upper: bool, n: u32, v: u64) -> Vec<u8> {
+    let digits: &[u8; 16] = if upper { b"0123456789ABCDEF" } else { b"0123456789abcdef" };
     let mut out = vec![];
     for i in (0..n).rev() {
         let d = (v >> (4 * i)) & 15;
-        out.push(b"0123456789abcdef"[d as usize]);
+        out.push(digits[d as usize]);
     }
     out
+}
+
+fn hex_fixed(n: u32, v: u64) -> Vec<u8> {
+    hex_fixed_c(false, n, v)
 }
 
 fn hex_string(upper: bool, s: &[u8]) -> Vec<u8> {
@@ -362,14 +391,14 @@ fn join_with(sep: u8, parts: &[Vec<u8>]) -> Vec<u8> {
 
 fn color_spec_print(spec: &ColorSpec) -> Vec<u8> {
     match spec {
-        ColorSpec::Hash(r, g, b) => cat(&[b"#", &hex_fixed(2, *r), &hex_fixed(2, *g), &hex_fixed(2, *b)]),
-        ColorSpec::Rgb(r, g, b) => cat(&[
+        ColorSpec::Hash(r, g, b, u) => cat(&[b"#", &hex_fixed_c(*u, 2, *r), &hex_fixed_c(*u, 2, *g), &hex_fixed_c(*u, 2, *b)]),
+        ColorSpec::Rgb(r, g, b, u) => cat(&[
             b"rgb:",
-            &hex_fixed(r.digits, r.value),
+            &hex_fixed_c(*u, r.digits, r.value),
             b"/",
-            &hex_fixed(g.digits, g.value),
+            &hex_fixed_c(*u, g.digits, g.value),
             b"/",
-            &hex_fixed(b.digits, b.value),
+            &hex_fixed_c(*u, b.digits, b.value),
         ]),
     }
 }
@@ -404,6 +433,49 @@ fn sgr_item_print(it: &SgrItem) -> Vec<u8> {
             };
             cat(&[&num(role_code(*role)), intro, &num(*r), sep, &num(*g), sep, &num(*b)])
         }
+        SgrItem::Palette { role, index, colon: false } => cat(&[&num(role_code(*role)), b";5;", &num(*index)]),
+        SgrItem::Palette { role, index, colon: true } => cat(&[&num(role_code(*role)), b":5:", &num(*index)]),
+        SgrItem::Named { background: false, index } => num(if *index < 8 { 30 + index } else { 82 + index }),
+        SgrItem::Named { background: true, index } => num(if *index < 8 { 40 + index } else { 92 + index }),
+        SgrItem::DoubleUnderline => b"21".to_vec(),
+        SgrItem::UnderlineColon(s) => cat(&[b"4:", &num(*s)]),
+        SgrItem::Empty => vec![],
+    }
+}
+
+/// the library's 16 named colours (fixed table of the naming side of the property)
+const NAMED_COLORS: [(u64, u64, u64); 16] = [
+    (0, 0, 0),
+    (128, 0, 0),
+    (0, 128, 0),
+    (128, 128, 0),
+    (0, 0, 128),
+    (128, 0, 128),
+    (0, 128, 128),
+    (192, 192, 192),
+    (128, 128, 128),
+    (255, 0, 0),
+    (0, 255, 0),
+    (255, 255, 0),
+    (0, 0, 255),
+    (255, 0, 255),
+    (0, 255, 255),
+    (255, 255, 255),
+];
+
+/// level of one channel of the 6 x 6 x 6 colour cube
+const CUBE_LEVELS: [u64; 6] = [0, 95, 135, 175, 215, 255];
+
+/// xterm: 0–15 named colours, 16–231 the colour cube `16 + 36 r + 6 g + b`, 232–255 the grey ramp `8 + 10 i`
+pub fn xterm_palette(i: u64) -> (u64, u64, u64) {
+    if i < 16 {
+        NAMED_COLORS[i as usize]
+    } else if i < 232 {
+        let k = i - 16;
+        (CUBE_LEVELS[(k / 36) as usize], CUBE_LEVELS[(k / 6 % 6) as usize], CUBE_LEVELS[(k % 6) as usize])
+    } else {
+        let v = 8 + 10 * (i.min(255) - 232);
+        (v, v, v)
     }
 }
 
@@ -478,9 +550,13 @@ pub fn print(m: &Msg) -> Vec<u8> {
             };
             cat(&[CSI, &join_with(b':', &codes), &mods, b"u"])
         }
-        Msg::KittyImage { id, placement, error } => cat(&[
+        Msg::KittyImage { id, number, placement, error } => cat(&[
             b"\x1b_Gi=",
             &num(*id),
+            &match number {
+                Some(n) => cat(&[b",I=", &num(*n)]),
+                None => vec![],
+            },
             &match placement {
                 Some(p) => cat(&[b",p=", &num(*p)]),
                 None => vec![],
@@ -526,6 +602,14 @@ fn sgr_meaning(items: &[SgrItem]) -> FMod {
             SgrItem::Rgb { role: 0, r, g, b, .. } => m.fg = Some((*r, *g, *b)),
             SgrItem::Rgb { role: 1, r, g, b, .. } => m.bg = Some((*r, *g, *b)),
             SgrItem::Rgb { r, g, b, .. } => m.underline_color = Some((*r, *g, *b)),
+            SgrItem::Palette { role: 0, index, .. } => m.fg = Some(xterm_palette(*index)),
+            SgrItem::Palette { role: 1, index, .. } => m.bg = Some(xterm_palette(*index)),
+            SgrItem::Palette { index, .. } => m.underline_color = Some(xterm_palette(*index)),
+            SgrItem::Named { background: false, index } => m.fg = Some(xterm_palette(*index)),
+            SgrItem::Named { background: true, index } => m.bg = Some(xterm_palette(*index)),
+            SgrItem::DoubleUnderline => m.underline = Some(2),
+            SgrItem::UnderlineColon(s) => m.underline = Some(*s),
+            SgrItem::Empty => m = FMod { reset: true, ..FMod::default() },
         }
     }
     m
@@ -636,8 +720,8 @@ pub fn meaning(m: &Msg) -> String {
                 ColorName::Palette(i) => format!("p{i}"),
             };
             let (r, g, b) = match spec {
-                ColorSpec::Hash(r, g, b) => (*r, *g, *b),
-                ColorSpec::Rgb(r, g, b) => (r.byte(), g.byte(), b.byte()),
+                ColorSpec::Hash(r, g, b, _) => (*r, *g, *b),
+                ColorSpec::Rgb(r, g, b, _) => (r.byte(), g.byte(), b.byte()),
             };
             format!("color:{name}={r},{g},{b},255")
         }
@@ -653,7 +737,7 @@ pub fn meaning(m: &Msg) -> String {
             let (v, p) = csi_u_name(*code);
             format!("key:{v}.{p}.{}", mods.unwrap_or(0))
         }
-        Msg::KittyImage { id, placement, error } => format!(
+        Msg::KittyImage { id, placement, error, .. } => format!(
             "kitty:{id},{},{}",
             placement.map(|p| p.to_string()).unwrap_or("-".into()),
             match error {
@@ -699,6 +783,11 @@ fn wire_items(items: &[SgrItem]) -> String {
                     ColorForm::ColonSpace => "cs",
                 }
             ),
+            SgrItem::Palette { role, index, colon } => format!("pal{role}.{index}.{}", if *colon { "c" } else { "s" }),
+            SgrItem::Named { background, index } => format!("named{}.{index}", b(background)),
+            SgrItem::DoubleUnderline => "ul21".to_string(),
+            SgrItem::UnderlineColon(s) => format!("ulc{s}"),
+            SgrItem::Empty => "empty".to_string(),
         })
         .collect::<Vec<_>>()
         .join(",")
@@ -710,6 +799,7 @@ fn wire_list(xs: &[u64]) -> String {
 
 pub fn wire(m: &Msg) -> String {
     let b = |v: bool| if v { 1 } else { 0 };
+    let b_ = b;
     match m {
         Msg::Key(i) => format!("key {i}"),
         Msg::Text(c) => format!("text {c}"),
@@ -729,10 +819,10 @@ pub fn wire(m: &Msg) -> String {
                 OscEnd::Bel => "bel",
             };
             match spec {
-                ColorSpec::Hash(r, g, b) => format!("color {name} {fin} hash {r} {g} {b}"),
-                ColorSpec::Rgb(r, g, b) => format!(
-                    "color {name} {fin} rgb {}.{} {}.{} {}.{}",
-                    r.digits, r.value, g.digits, g.value, b.digits, b.value
+                ColorSpec::Hash(r, g, b, u) => format!("color {name} {fin} hash {r} {g} {b} {}", b_(*u)),
+                ColorSpec::Rgb(r, g, b, u) => format!(
+                    "color {name} {fin} rgb {}.{} {}.{} {}.{} {}",
+                    r.digits, r.value, g.digits, g.value, b.digits, b.value, b_(*u)
                 ),
             }
         }
@@ -756,8 +846,9 @@ pub fn wire(m: &Msg) -> String {
         Msg::CsiU { code, alts, mods } => {
             format!("csiu {code} {} {}", wire_list(alts), mods.map(|m| m.to_string()).unwrap_or("-".into()))
         }
-        Msg::KittyImage { id, placement, error } => format!(
-            "kitty {id} {} {}",
+        Msg::KittyImage { id, number, placement, error } => format!(
+            "kitty {id} {} {} {}",
+            number.map(|p| p.to_string()).unwrap_or("-".into()),
             placement.map(|p| p.to_string()).unwrap_or("-".into()),
             match error {
                 None => "ok".to_string(),
@@ -809,8 +900,9 @@ fn gen_color_name(rng: &mut Rng) -> ColorName {
 
 fn gen_color(rng: &mut Rng) -> Msg {
     let name = gen_color_name(rng);
+    let upper = rng.chance(1, 3);
     let spec = if rng.chance(1, 5) {
-        ColorSpec::Hash(byte_val(rng), byte_val(rng), byte_val(rng))
+        ColorSpec::Hash(byte_val(rng), byte_val(rng), byte_val(rng), upper)
     } else {
         let d = 1 + rng.below(4) as u32;
         let same = rng.chance(1, 2);
@@ -818,20 +910,29 @@ fn gen_color(rng: &mut Rng) -> Msg {
             let digits = if same { d } else { 1 + rng.below(4) as u32 };
             gen_channel(rng, digits)
         };
-        ColorSpec::Rgb(ch(rng), ch(rng), ch(rng))
+        ColorSpec::Rgb(ch(rng), ch(rng), ch(rng), upper)
     };
     let fin = if rng.chance(1, 2) { OscEnd::St } else { OscEnd::Bel };
     Msg::Color { name, spec, fin }
 }
 
+fn palette_index(rng: &mut Rng) -> u64 {
+    if rng.chance(1, 2) { *rng.pick(&[0u64, 7, 8, 15, 16, 17, 51, 52, 231, 232, 233, 254, 255]) } else { rng.below(256) }
+}
+
 fn gen_sgr_item(rng: &mut Rng) -> SgrItem {
-    match rng.below(7) {
+    match rng.below(12) {
         0 => SgrItem::Reset,
         1 => SgrItem::Bold(rng.chance(1, 2)),
         2 => SgrItem::Italic(rng.chance(1, 2)),
         3 => SgrItem::Blink(rng.chance(1, 2)),
         4 => SgrItem::Strike(rng.chance(1, 2)),
         5 => SgrItem::Underline(rng.below(6)),
+        6 => SgrItem::Palette { role: rng.below(3), index: palette_index(rng), colon: rng.chance(1, 2) },
+        7 => SgrItem::Named { background: rng.chance(1, 2), index: rng.below(16) },
+        8 => SgrItem::DoubleUnderline,
+        9 => SgrItem::UnderlineColon(rng.below(6)),
+        10 => SgrItem::Empty,
         _ => SgrItem::Rgb {
             role: rng.below(3),
             r: byte_val(rng),
@@ -843,7 +944,8 @@ fn gen_sgr_item(rng: &mut Rng) -> SgrItem {
 }
 
 fn gen_sgr_items(rng: &mut Rng, min: u64, max: u64) -> Vec<SgrItem> {
-    let n = min + rng.below(max - min + 1);
+    // one sequence in 25 is long: the decoder's buffers spill to the heap above 32 bytes
+    let n = if rng.chance(1, 25) { 100 + rng.below(301) } else { min + rng.below(max - min + 1) };
     (0..n).map(|_| gen_sgr_item(rng)).collect()
 }
 
@@ -894,7 +996,49 @@ fn gen_utf8_text(rng: &mut Rng, max: usize) -> Vec<u8> {
     out
 }
 
+/// long valid UTF-8 without ESC, between `lo` and `hi` bytes: ASCII runs mixed with multi-byte characters
+fn gen_long_text(rng: &mut Rng, lo: usize, hi: usize) -> Vec<u8> {
+    let target = lo + rng.below((hi - lo + 1) as u64) as usize;
+    let mut out = Vec::with_capacity(target + 8);
+    while out.len() < target {
+        match rng.below(6) {
+            0..=2 => {
+                // a run of printable ASCII
+                let n = 1 + rng.below(200) as usize;
+                for _ in 0..n.min(target - out.len()) {
+                    out.push(0x20 + rng.below(0x5f) as u8);
+                }
+            }
+            3 => out.extend_from_slice(*rng.pick(&[&b"\n"[..], b"\t", b"\r\n", b"\x07", b"\x00", b"[201~", b";", b"\\"])),
+            4 => {
+                // a run of one multi-byte character
+                let c = *rng.pick(&[0xe9u32, 0x7ff, 0x800, 0x20ac, 0xffff, 0x10000, 0x1f600, 0x10ffff]);
+                let enc = utf8(c);
+                for _ in 0..1 + rng.below(40) {
+                    out.extend_from_slice(&enc);
+                }
+            }
+            _ => {
+                let c = loop {
+                    let c = rng.below(0x110000);
+                    if is_scalar(c) && c != 0x1b {
+                        break c as u32;
+                    }
+                };
+                out.extend(utf8(c));
+            }
+        }
+    }
+    out
+}
+
 fn gen_paste(rng: &mut Rng) -> Msg {
+    if rng.chance(1, 25) {
+        // 4 KiB – 64 KiB, each octave half as often as the one below (the decoder costs ~50 ns per byte and
+        // every stream is decoded three times)
+        let lo = (4usize << 10) << [0, 0, 0, 0, 0, 0, 0, 0, 1, 1, 1, 1, 2, 2, 3][rng.below(15) as usize];
+        return Msg::Paste(gen_long_text(rng, lo, 2 * lo));
+    }
     let mut text = gen_utf8_text(rng, 40);
     if rng.chance(1, 5) {
         // the terminator without its ESC, and friends
@@ -918,7 +1062,13 @@ fn gen_kitty(rng: &mut Rng) -> Msg {
     } else {
         Some(if rng.chance(1, 2) { *rng.pick(&[0u64, 1, 2, 255, 65535, 4294967295]) } else { rng.below(1 << 32) })
     };
+    let number = if rng.chance(1, 3) {
+        Some(if rng.chance(1, 2) { *rng.pick(&[0u64, 1, 2, 255, 65535, 4294967295]) } else { rng.below(1 << 32) })
+    } else {
+        None
+    };
     let error = match rng.below(6) {
+        _ if rng.chance(1, 25) => Some(gen_long_text(rng, 1 << 10, 4 << 10)),
         0 | 1 => None,
         2 => Some(
             rng.pick(&[
@@ -941,7 +1091,7 @@ fn gen_kitty(rng: &mut Rng) -> Msg {
         Some(e) if e == b"OK" => Some(b"OK!".to_vec()),
         e => e,
     };
-    Msg::KittyImage { id, placement, error }
+    Msg::KittyImage { id, number, placement, error }
 }
 
 const TC_NAMES: [&[u8]; 10] = [b"Co", b"TN", b"colors", b"RGB", b"Ms", b"Se", b"Ss", b"kD", b"name", b"Tc"];
@@ -956,6 +1106,10 @@ fn gen_tc_name(rng: &mut Rng) -> Vec<u8> {
 }
 
 fn gen_tc_value(rng: &mut Rng) -> Vec<u8> {
+    if rng.chance(1, 25) {
+        let n = 512 + rng.below(1537);
+        return (0..n).map(|_| rng.below(256) as u8).collect();
+    }
     if rng.chance(1, 3) {
         rng.pick(&[&b"256"[..], b"xterm-kitty", b"8", b"\x1b[%p1%dm", b"\x1b]52;c;%p2%s\x07"]).to_vec()
     } else {
@@ -1134,48 +1288,65 @@ impl Dfa {
 
 /* ================================================================ decoding with the real decoder */
 
-fn partition(rng: &mut Rng, data: &[u8], mode: u64) -> Vec<Vec<u8>> {
+/// a partition of `len` bytes into consecutive reads, as the list of their lengths
+fn partition(rng: &mut Rng, len: usize, mode: u64) -> Vec<usize> {
     match mode {
-        0 => vec![data.to_vec()],
-        1 if data.is_empty() => vec![vec![]],
-        1 => data.iter().map(|b| vec![*b]).collect(),
+        0 => vec![len],
+        1 if len == 0 => vec![0],
+        1 => vec![1; len],
         _ => {
             // arbitrary cuts, empty reads allowed
             let mut out = Vec::new();
             let mut pos = 0;
-            while pos < data.len() {
+            while pos < len {
                 if rng.chance(1, 6) {
-                    out.push(vec![]);
+                    out.push(0);
                 }
                 let span = 1 + rng.below(8);
                 let n = 1 + rng.below(span) as usize;
-                let end = (pos + n).min(data.len());
-                out.push(data[pos..end].to_vec());
+                let end = (pos + n).min(len);
+                out.push(end - pos);
                 pos = end;
             }
             if rng.chance(1, 4) {
-                out.push(vec![]);
+                out.push(0);
             }
             if out.is_empty() {
-                out.push(vec![]);
+                out.push(0);
             }
             out
         }
     }
 }
 
+fn chunks_of<'a>(stream: &'a [u8], lens: &[usize]) -> Vec<&'a [u8]> {
+    let mut pos = 0;
+    let mut out = Vec::with_capacity(lens.len());
+    for n in lens {
+        let end = (pos + n).min(stream.len());
+        out.push(&stream[pos..end]);
+        pos = end;
+    }
+    out
+}
+
 /// canonical texts of the events of a fresh `TTYEventDecoder` fed the chunks one read at a time
 fn decode_chunks(chunks: &[Vec<u8>]) -> Vec<String> {
+    decode_reads(&chunks.iter().map(|c| &c[..]).collect::<Vec<_>>())
+}
+
+/// canonical texts of the events of a fresh `TTYEventDecoder` fed one slice per read
+fn decode_reads(chunks: &[&[u8]]) -> Vec<String> {
     let mut dec = TTYEventDecoder::new();
     let mut out = Vec::new();
+    let mut items = Vec::new();
     for chunk in chunks {
-        let mut items = Vec::new();
         let r = guarded(|| {
-            let mut cur = Cursor::new(&chunk[..]);
+            let mut cur = Cursor::new(*chunk);
             let r = dec.decode_into(&mut cur, &mut items);
             (r.is_ok(), cur.position() as usize)
         });
-        out.extend(items.iter().map(show_event));
+        out.extend(items.drain(..).map(|e| show_event(&e)));
         match r {
             Ok((true, pos)) if pos == chunk.len() => {}
             Ok((true, _)) => out.push("UNCONSUMED".into()),
@@ -1208,10 +1379,51 @@ fn fnv(s: &str) -> u64 {
 
 /* ================================================================ context */
 
+/// The documented prefix keys: the only spellings of the naming table that are proper prefixes of other
+/// sequences (`ESC` of everything, `ESC [` of CSI, `ESC ]` of OSC, `ESC _` of APC, `ESC O` of SS3, `ESC P` of
+/// DCS). They merge with following printable input.
+fn prefix_keys() -> Vec<KeyRow> {
+    vec![
+        (vec![27], (K_ESC, 0, 0)),
+        (vec![27, b'['], (K_CHAR, b'[' as u64, MOD_ALT)),
+        (vec![27, b']'], (K_CHAR, b']' as u64, MOD_ALT)),
+        (vec![27, b'_'], (K_CHAR, b'_' as u64, MOD_ALT)),
+        (vec![27, b'O'], (K_CHAR, b'o' as u64, MOD_ALT + MOD_SHIFT)),
+        (vec![27, b'P'], (K_CHAR, b'p' as u64, MOD_ALT + MOD_SHIFT)),
+    ]
+}
+
+/// `events::key_code` of a key given as (variant, payload, mode bits)
+fn code_of(k: (u64, u64, u64)) -> u64 {
+    match events::key_name_of_variant(k.0, k.1) {
+        Some(name) => events::key_code(&surf_n_term::Key { name, mode: events::mod_of_bits(k.2) }),
+        None => u64::MAX,
+    }
+}
+
+/// tokens above this size get no `pay decode` / `proto msg` / `gram match` lines
+const MAX_LINE_TOKEN: usize = 70 << 10;
+/// tokens above this size count against `Ctx::long_budget`; streams above it get no `sd stream` line
+const LONG_TOKEN: usize = 8 << 10;
+/// `gram match` lines: the verified matcher of the Lean side (`Re.matchB`, derivatives) costs about n^3 (0.15 s at
+/// 500 bytes, 13 s at 2000 bytes), so only tokens up to `MATCH_TOKEN` bytes are sent, and tokens between
+/// `MATCH_FREE` and `MATCH_TOKEN` only while `Ctx::match_budget` lasts. The Rust oracle applies
+/// `matcher_matches` to EVERY printed message regardless.
+const MATCH_FREE: usize = 256;
+const MATCH_TOKEN: usize = 600;
+const MID_STREAM: usize = 1 << 10;
+
 struct Ctx {
     dfa: Dfa,
-    /// indices into `proto_keys()` of the keys whose accepting state is not terminal
+    /// indices into `proto_keys()` of the documented prefix keys
     nonterminal: HashSet<usize>,
+    /// remaining number of tokens above `LONG_TOKEN` that still get lines (each is 16–140 KB of hex)
+    long_budget: u64,
+    /// remaining number of streams above `MID_STREAM` that still get an `sd stream` line (the Lean tokenizer
+    /// model is quadratic in the token length: ~20 ms per line at 4 KiB)
+    long_stream_budget: u64,
+    /// remaining number of `gram match` lines for tokens between `MATCH_FREE` and `MATCH_TOKEN` bytes
+    match_budget: u64,
     seen: HashSet<u64>,
     /// remaining budget of `pay decode` / `proto msg` lines
     budget: u64,
@@ -1224,15 +1436,9 @@ struct Ctx {
 impl Ctx {
     fn new(cfg: &Cfg) -> Ctx {
         let dfa = Dfa::new(verif_c04::event_dfa());
-        let mut nonterminal = HashSet::new();
-        for (i, (bytes, _)) in keys().iter().enumerate() {
-            if let Some(s) = dfa.run(bytes) {
-                if dfa.states[s].accepting && !dfa.states[s].terminal {
-                    nonterminal.insert(i);
-                }
-            }
-        }
-        Ctx { dfa, nonterminal, seen: HashSet::new(), budget: if cfg.thorough { 600_000 } else { 150_000 }, streams: 0, samples: 0, stream_budget: if cfg.thorough { 150_000 } else { 15_000 } }
+        let prefix: Vec<Vec<u8>> = prefix_keys().into_iter().map(|r| r.0).collect();
+        let nonterminal = keys().iter().enumerate().filter(|(_, r)| prefix.contains(&r.0)).map(|(i, _)| i).collect();
+        Ctx { dfa, nonterminal, long_budget: if cfg.thorough { 200 } else { 40 }, long_stream_budget: if cfg.thorough { 500 } else { 80 }, match_budget: if cfg.thorough { 100 } else { 20 }, seen: HashSet::new(), budget: if cfg.thorough { 900_000 } else { 260_000 }, streams: 0, samples: 0, stream_budget: if cfg.thorough { 150_000 } else { 15_000 } }
     }
     fn is_nonterminal(&self, m: &Msg) -> bool {
         matches!(m, Msg::Key(i) if self.nonterminal.contains(i))
@@ -1245,6 +1451,26 @@ impl Ctx {
         self.budget -= 1;
         let a = answer();
         out.corr(&request, &a);
+    }
+    /// may a `gram match` line be sent for a token of this size?
+    fn match_line_ok(&mut self, len: usize) -> bool {
+        if len <= MATCH_FREE {
+            return true;
+        }
+        if len > MATCH_TOKEN || self.match_budget == 0 {
+            return false;
+        }
+        self.match_budget -= 1;
+        true
+    }
+    /// a capped, de-duplicated oracle line
+    fn oracle(&mut self, out: &mut Out, request: String, answer: impl FnOnce() -> String) {
+        if self.budget == 0 || !self.seen.insert(fnv(&request)) {
+            return;
+        }
+        self.budget -= 1;
+        let a = answer();
+        out.oracle(&request, &a);
     }
 }
 
@@ -1351,19 +1577,47 @@ fn mutate(rng: &mut Rng, tok: &[u8]) -> Vec<u8> {
 
 /// correspondence lines of one generated message
 fn msg_lines(ctx: &mut Ctx, out: &mut Out, rng: &mut Rng, m: &Msg) {
-    if ctx.budget == 0 {
-        return;
-    }
     let k = family(m);
     let bytes = print(m);
-    ctx.corr(out, format!("proto msg {}", wire(m)), || format!("{} {}", hex(&bytes), meaning(m)));
-    if k == 0 {
+    // the production grammar of the family, compiled on its own, must accept every printed message
+    // (checked on every message, also beyond the budget of lines)
+    let accepted = guarded(|| verif_c04::matcher_matches(k, &bytes)).unwrap_or(false);
+    if !accepted {
+        out.fail(
+            WHAT_GRAMMAR,
+            json!({"kind": "grammar", "family": k, "stream": hex(&bytes), "msgs": [wire(m)], "expected": [expected_event(m)]}),
+            json!("accepted"),
+            json!("rejected"),
+        );
+    }
+    if ctx.budget == 0 || bytes.len() > MAX_LINE_TOKEN {
         return;
     }
-    ctx.corr(out, format!("pay decode {k} {}", hex(&bytes)), || real_decode(k, &bytes));
+    if bytes.len() > LONG_TOKEN {
+        if ctx.long_budget == 0 {
+            return;
+        }
+        ctx.long_budget -= 1;
+        out.hist("tie:long-token");
+    }
+    ctx.corr(out, format!("proto msg {}", wire(m)), || format!("{} {}", hex(&bytes), meaning(m)));
+    if ctx.match_line_ok(bytes.len()) {
+        ctx.oracle(out, format!("gram match {k} {}", hex(&bytes)), || bit(accepted).to_string());
+    }
+    if k != 0 {
+        ctx.corr(out, format!("pay decode {k} {}", hex(&bytes)), || real_decode(k, &bytes));
+    }
     if k != 12 && rng.chance(1, 4) {
         let t = mutate(rng, &bytes);
-        ctx.corr(out, format!("pay decode {k} {}", hex(&t)), || real_decode(k, &t));
+        if k != 0 {
+            ctx.corr(out, format!("pay decode {k} {}", hex(&t)), || real_decode(k, &t));
+        }
+        if ctx.match_line_ok(t.len()) {
+            ctx.oracle(out, format!("gram match {k} {}", hex(&t)), || match guarded(|| verif_c04::matcher_matches(k, &t)) {
+                Ok(v) => bit(v).to_string(),
+                Err(()) => "panic".to_string(),
+            });
+        }
         out.hist("tie:mutated-token");
     }
 }
@@ -1372,26 +1626,53 @@ fn msg_lines(ctx: &mut Ctx, out: &mut Out, rng: &mut Rng, m: &Msg) {
 
 const WHAT_STREAM: &str = "decoded events differ from the events the stream encodes";
 const WHAT_CUT: &str = "decoded events depend on how the stream is cut into reads";
+const WHAT_GRAMMAR: &str = "the production grammar rejects a well-formed sequence";
 
-fn chunks_json(chunks: &[Vec<u8>]) -> Value {
-    json!(chunks.iter().map(|c| hex(c)).collect::<Vec<_>>())
+fn chunks_json(stream: &[u8], lens: &[usize]) -> Value {
+    json!(chunks_of(stream, lens).iter().map(|c| hex(c)).collect::<Vec<_>>())
+}
+
+/// What a stream must decode to: `events`, optionally followed by `tail` — the event of a prefix key that
+/// ends the stream (the property does not say whether such a key is delivered before more input arrives).
+#[derive(Clone, Debug)]
+struct Expect {
+    events: Vec<String>,
+    tail: Option<String>,
+}
+
+impl Expect {
+    fn exact(events: Vec<String>) -> Expect {
+        Expect { events, tail: None }
+    }
+    fn admits(&self, got: &[String]) -> bool {
+        got == &self.events[..]
+            || match &self.tail {
+                Some(t) => got.len() == self.events.len() + 1 && got[..self.events.len()] == self.events[..] && got[self.events.len()] == *t,
+                None => false,
+            }
+    }
+    fn json(&self) -> Value {
+        match &self.tail {
+            None => json!(self.events),
+            Some(t) => json!({"events": self.events, "optionally_then": t}),
+        }
+    }
 }
 
 /// decode `stream` under the partitions and compare with `expected`; returns `true` when all agree
-fn check_stream(out: &mut Out, stream: &[u8], wires: &[String], expected: &[String], parts: &[Vec<Vec<u8>>]) -> bool {
+fn check_stream(out: &mut Out, stream: &[u8], wires: &[String], expected: &Expect, parts: &[Vec<usize>]) -> bool {
     let mut ok = true;
     let mut first: Option<Vec<String>> = None;
     let mut cut_reported = false;
-    for chunks in parts {
-        let got = decode_chunks(chunks);
-        if got != expected {
+    let input = |lens: &[usize]| {
+        json!({"stream": hex(stream), "msgs": wires, "partition": chunks_json(stream, lens), "expected": expected.events,
+               "optional_tail": expected.tail})
+    };
+    for lens in parts {
+        let got = decode_reads(&chunks_of(stream, lens));
+        if !expected.admits(&got) {
             ok = false;
-            out.fail(
-                WHAT_STREAM,
-                json!({"stream": hex(stream), "msgs": wires, "partition": chunks_json(chunks), "expected": expected}),
-                json!(expected),
-                json!(got),
-            );
+            out.fail(WHAT_STREAM, input(lens), expected.json(), json!(got));
         }
         match &first {
             None => first = Some(got),
@@ -1399,12 +1680,7 @@ fn check_stream(out: &mut Out, stream: &[u8], wires: &[String], expected: &[Stri
                 if *f != got && !cut_reported {
                     cut_reported = true;
                     ok = false;
-                    out.fail(
-                        WHAT_CUT,
-                        json!({"stream": hex(stream), "msgs": wires, "partition": chunks_json(chunks), "expected": expected}),
-                        json!(f),
-                        json!(got),
-                    );
+                    out.fail(WHAT_CUT, input(lens), json!(f), json!(got));
                 }
             }
         }
@@ -1440,8 +1716,15 @@ fn may_be_external(stream: &[u8]) -> bool {
 /// decoders: `SurfModel.Stream.decodeEvents`) with the real decoder on the whole stream and, one time in
 /// four, on a damaged copy (the model must follow the implementation on any bytes)
 fn stream_lines(ctx: &mut Ctx, out: &mut Out, rng: &mut Rng, stream: &[u8]) {
-    if ctx.stream_budget == 0 || stream.is_empty() {
+    // the Lean tokenizer model is quadratic in the token length: short streams only
+    if ctx.stream_budget == 0 || stream.is_empty() || stream.len() > LONG_TOKEN {
         return;
+    }
+    if stream.len() > MID_STREAM {
+        if ctx.long_stream_budget == 0 {
+            return;
+        }
+        ctx.long_stream_budget -= 1;
     }
     ctx.stream_budget -= 1;
     out.corr(&format!("sd stream {}", hex(stream)), &events_text(&decode_chunks(&[stream.to_vec()])));
@@ -1465,27 +1748,40 @@ fn stream_lines(ctx: &mut Ctx, out: &mut Out, rng: &mut Rng, stream: &[u8]) {
 }
 
 /// a stream of messages: oracle under three partitions, statistics, correspondence lines
-fn run_case(ctx: &mut Ctx, out: &mut Out, rng: &mut Rng, msgs: &[Msg], expected_override: Option<Vec<String>>) {
+fn run_case(ctx: &mut Ctx, out: &mut Out, rng: &mut Rng, msgs: &[Msg], expected_override: Option<Expect>) {
     let mut stream = vec![];
     for m in msgs {
         stream.extend(print(m));
     }
-    let expected: Vec<String> = expected_override.unwrap_or_else(|| msgs.iter().map(expected_event).collect());
+    let expected = expected_override.unwrap_or_else(|| match msgs.split_last() {
+        // a prefix key at the end of the stream may or may not be delivered
+        Some((last, init)) if ctx.is_nonterminal(last) => {
+            Expect { events: init.iter().map(expected_event).collect(), tail: Some(expected_event(last)) }
+        }
+        _ => Expect::exact(msgs.iter().map(expected_event).collect()),
+    });
     let wires: Vec<String> = msgs.iter().map(wire).collect();
-    let parts = vec![partition(rng, &stream, 0), partition(rng, &stream, 1), partition(rng, &stream, 2)];
+    let parts = vec![partition(rng, stream.len(), 0), partition(rng, stream.len(), 1), partition(rng, stream.len(), 2)];
     check_stream(out, &stream, &wires, &expected, &parts);
     stream_lines(ctx, out, rng, &stream);
     let nontrivial = msgs.iter().any(|m| !matches!(family(m), 0 | 12));
     out.case(&hex(&stream), nontrivial);
-    out.hist(&format!("len:{}", msgs.len()));
+    out.hist(&format!("len:{}", msgs.len().min(13)));
+    out.hist(match stream.len() {
+        0..=32 => "bytes:0-32",
+        33..=128 => "bytes:33-128",
+        129..=1024 => "bytes:129-1024",
+        1025..=8192 => "bytes:1025-8192",
+        _ => "bytes:8193-",
+    });
     for m in msgs {
         out.hist(&format!("family:{}", FAMILY_NAMES[family(m)]));
         msg_lines(ctx, out, rng, m);
     }
     ctx.streams += 1;
-    if ctx.samples < 12 && msgs.len() >= 2 && nontrivial && ctx.streams % 97 == 5 {
+    if ctx.samples < 12 && msgs.len() >= 2 && nontrivial && stream.len() < 300 && ctx.streams % 97 == 5 {
         ctx.samples += 1;
-        out.sample(json!({"stream": hex(&stream), "msgs": wires, "events": expected}));
+        out.sample(json!({"stream": hex(&stream), "msgs": wires, "events": expected.json()}));
     }
 }
 
@@ -1502,11 +1798,9 @@ fn gen_stream(ctx: &Ctx, rng: &mut Rng) -> Vec<Msg> {
     // one stream in ten is mostly text, so that reports sit between runs of plain characters
     let texty = rng.chance(1, 10);
     let mut msgs: Vec<Msg> = vec![];
-    loop {
+    while msgs.len() < n {
+        // a prefix key merges with following printable input: what follows it starts another way
         let after_prefix_key = msgs.last().map(|m| ctx.is_nonterminal(m)).unwrap_or(false);
-        if msgs.len() >= n && !after_prefix_key {
-            break;
-        }
         let m = loop {
             let m = if texty && rng.chance(1, 2) { gen_family(rng, 12) } else { gen_msg(rng) };
             if !after_prefix_key || starts_safe(&m) {
@@ -1685,23 +1979,85 @@ fn key_tie(ctx: &Ctx, out: &mut Out) {
 /// oracle line of the self-delimiting condition and the set of prefix keys
 fn sd_line(ctx: &Ctx, out: &mut Out) {
     let dfa = &ctx.dfa;
-    let mut codes: Vec<u64> = dfa
+    // expected answer from the documented list, not from the dump
+    let spec: BTreeSet<(Vec<u8>, u64)> = prefix_keys().into_iter().map(|(b, k)| (b, code_of(k))).collect();
+    let mut codes: Vec<u64> = spec.iter().map(|(_, c)| *c).collect();
+    codes.sort();
+    let list = codes.iter().map(|c| c.to_string()).collect::<Vec<_>>().join(",");
+    out.oracle(&format!("sd event | {}", dumps::show_table(&dfa.states, dumps::event_item_tag)), &format!("ok {} {list}", codes.len()));
+    out.hist("tie:self-delimiting");
+    // the same comparison in Rust, with the offending spelling
+    let words = dfa.words();
+    let dumped: BTreeSet<(Vec<u8>, u64)> = dfa
         .states
         .iter()
-        .filter(|s| s.accepting && !s.terminal)
-        .map(|s| s.tags.first().map(tag_num).unwrap_or(u64::MAX))
+        .enumerate()
+        .filter(|(_, s)| s.accepting && !s.terminal)
+        .map(|(i, s)| (words[i].clone(), s.tags.first().map(tag_num).unwrap_or(u64::MAX)))
         .collect();
-    let count = codes.len();
-    codes.sort();
-    let list = if codes.is_empty() { "-".to_string() } else { codes.iter().map(|c| c.to_string()).collect::<Vec<_>>().join(",") };
-    out.oracle(&format!("sd event | {}", dumps::show_table(&dfa.states, dumps::event_item_tag)), &format!("ok {count} {list}"));
-    out.hist("tie:self-delimiting");
-    let mut nt: Vec<usize> = ctx.nonterminal.iter().copied().collect();
-    nt.sort();
+    for (bytes, code) in spec.difference(&dumped) {
+        out.fail(
+            WHAT_PREFIX,
+            json!({"kind": "prefixkeys", "stream": hex(bytes)}),
+            json!(format!("a complete key (code {code}) that is a proper prefix of other sequences")),
+            json!(match dfa.run(bytes) {
+                None => "not a sequence".to_string(),
+                Some(s) => format!(
+                    "accepting={} terminal={} least tag {}",
+                    dfa.states[s].accepting,
+                    dfa.states[s].terminal,
+                    dfa.states[s].tags.first().map(|t| tag_num(t).to_string()).unwrap_or("-".into())
+                ),
+            }),
+        );
+    }
+    for (bytes, code) in dumped.difference(&spec) {
+        if spec.iter().any(|(b, _)| b == bytes) {
+            continue; // reported above
+        }
+        out.fail(
+            WHAT_PREFIX,
+            json!({"kind": "prefixkeys", "stream": hex(bytes)}),
+            json!("a self-delimiting sequence or no sequence"),
+            json!(format!("complete (least tag {code}) and a proper prefix of other sequences")),
+        );
+    }
+    out.case("prefix-keys", true);
     out.extra(
         "nonterminal_keys",
-        json!(nt.iter().map(|i| json!({"bytes": hex(&keys()[*i].0), "key": key_text(keys()[*i].1)})).collect::<Vec<_>>()),
+        json!(dumped.iter().map(|(b, c)| json!({"bytes": hex(b), "code": c})).collect::<Vec<_>>()),
     );
+}
+
+const WHAT_PREFIX: &str = "the set of prefix keys differs from the documented one";
+const WHAT_PALETTE: &str = "decoder palette differs from the xterm palette / the library's named colours";
+
+/// the decoder's colour tables (`COLORS`, `CUBE`, `GREYS`) against the spec-side xterm palette
+fn palette_check(out: &mut Out) {
+    let (colors, cube, greys) = surf_n_term::decoder::verif_c06::palette_tables();
+    for i in 0..256u64 {
+        let got = if i < 16 {
+            events::rgba_tok(Some(colors[i as usize]))
+        } else if i < 232 {
+            let k = (i - 16) as usize;
+            format!("{},{},{},255", cube[k / 36], cube[k / 6 % 6], cube[k % 6])
+        } else {
+            let v = greys[(i - 232) as usize];
+            format!("{v},{v},{v},255")
+        };
+        let want = rgb_tok(Some(xterm_palette(i)));
+        if got != want {
+            let m = Msg::Sgr(vec![SgrItem::Palette { role: 0, index: i, colon: false }]);
+            out.fail(
+                WHAT_PALETTE,
+                json!({"kind": "palette", "index": i, "stream": hex(&print(&m)), "msgs": [wire(&m)], "expected": [expected_event(&m)]}),
+                json!(want),
+                json!(got),
+            );
+        }
+    }
+    out.case("palette", true);
+    out.hist("tie:palette");
 }
 
 /* ================================================================ fixed correspondence lines */
@@ -1745,8 +2101,8 @@ fn fixed_lines(out: &mut Out, rng: &mut Rng) {
     .map(|s| s.as_bytes().to_vec())
     .collect();
     for _ in 0..30 {
-        texts.push(color_spec_print(&ColorSpec::Hash(byte_val(rng), byte_val(rng), byte_val(rng))));
-        let mut t = color_spec_print(&ColorSpec::Hash(byte_val(rng), byte_val(rng), byte_val(rng)));
+        texts.push(color_spec_print(&ColorSpec::Hash(byte_val(rng), byte_val(rng), byte_val(rng), rng.chance(1, 3))));
+        let mut t = color_spec_print(&ColorSpec::Hash(byte_val(rng), byte_val(rng), byte_val(rng), false));
         t.extend(hex_fixed(2, byte_val(rng)));
         if rng.chance(1, 3) {
             t.make_ascii_uppercase();
@@ -1756,7 +2112,7 @@ fn fixed_lines(out: &mut Out, rng: &mut Rng) {
     }
     for _ in 0..120 {
         let d = [1 + rng.below(4) as u32, 1 + rng.below(4) as u32, 1 + rng.below(4) as u32];
-        let mut t = color_spec_print(&ColorSpec::Rgb(gen_channel(rng, d[0]), gen_channel(rng, d[1]), gen_channel(rng, d[2])));
+        let mut t = color_spec_print(&ColorSpec::Rgb(gen_channel(rng, d[0]), gen_channel(rng, d[1]), gen_channel(rng, d[2]), false));
         if rng.chance(1, 4) {
             t[4..].make_ascii_uppercase();
         }
@@ -1800,8 +2156,8 @@ fn ch(digits: u32, value: u64) -> Channel {
 }
 
 /// streams with the expectation computed from `expected_event`
-fn corpus(ctx: &Ctx) -> Vec<(Vec<Msg>, Option<Vec<String>>)> {
-    let mut c: Vec<(Vec<Msg>, Option<Vec<String>>)> = vec![];
+fn corpus(ctx: &Ctx, rng: &mut Rng) -> Vec<(Vec<Msg>, Option<Expect>)> {
+    let mut c: Vec<(Vec<Msg>, Option<Expect>)> = vec![];
     let mut one = |m: Msg| c.push((vec![m], None));
     // the documented overlap and its neighbourhood; coordinates at both ends
     for col in 1..=9 {
@@ -1835,17 +2191,19 @@ fn corpus(ctx: &Ctx) -> Vec<(Vec<Msg>, Option<Vec<String>>)> {
     }
     // colours: the example of the task, every digit count at both ends, palette ends, hash form
     for fin in [OscEnd::Bel, OscEnd::St] {
-        one(Msg::Color { name: ColorName::Background, spec: ColorSpec::Rgb(ch(4, 0xffff), ch(4, 0x8080), ch(4, 0)), fin });
+        one(Msg::Color { name: ColorName::Background, spec: ColorSpec::Rgb(ch(4, 0xffff), ch(4, 0x8080), ch(4, 0), false), fin });
+        one(Msg::Color { name: ColorName::Background, spec: ColorSpec::Rgb(ch(4, 0xffff), ch(4, 0xabcd), ch(4, 0xe0f), true), fin });
+        one(Msg::Color { name: ColorName::Foreground, spec: ColorSpec::Hash(0xab, 0xcd, 0xef, true), fin });
         for d in 1..=4u32 {
             let max = (1u64 << (4 * d)) - 1;
             for v in [0, 1, max / 2, max / 2 + 1, max - 1, max] {
-                one(Msg::Color { name: ColorName::Foreground, spec: ColorSpec::Rgb(ch(d, v), ch(d, max - v), ch(d, v)), fin });
+                one(Msg::Color { name: ColorName::Foreground, spec: ColorSpec::Rgb(ch(d, v), ch(d, max - v), ch(d, v), v % 2 == 1), fin });
             }
         }
-        one(Msg::Color { name: ColorName::Palette(0), spec: ColorSpec::Hash(0, 0, 0), fin });
-        one(Msg::Color { name: ColorName::Palette(255), spec: ColorSpec::Hash(255, 128, 1), fin });
-        one(Msg::Color { name: ColorName::Palette(7), spec: ColorSpec::Rgb(ch(1, 0xf), ch(2, 0x80), ch(3, 0xabc)), fin });
-        one(Msg::Color { name: ColorName::Foreground, spec: ColorSpec::Rgb(ch(4, 0x1234), ch(3, 0x123), ch(1, 1)), fin });
+        one(Msg::Color { name: ColorName::Palette(0), spec: ColorSpec::Hash(0, 0, 0, false), fin });
+        one(Msg::Color { name: ColorName::Palette(255), spec: ColorSpec::Hash(255, 128, 1, true), fin });
+        one(Msg::Color { name: ColorName::Palette(7), spec: ColorSpec::Rgb(ch(1, 0xf), ch(2, 0x80), ch(3, 0xabc), false), fin });
+        one(Msg::Color { name: ColorName::Foreground, spec: ColorSpec::Rgb(ch(4, 0x1234), ch(3, 0x123), ch(1, 1), false), fin });
     }
     // SGR: every item alone, the three colour forms for every role, combinations
     let mut items = vec![SgrItem::Reset];
@@ -1870,6 +2228,49 @@ fn corpus(ctx: &Ctx) -> Vec<(Vec<Msg>, Option<Vec<String>>)> {
     one(Msg::FaceReport(vec![]));
     one(Msg::Sgr(items.clone()));
     one(Msg::FaceReport(items));
+    // the xterm palette: every index in both forms; every named colour; underline spellings; empty parameters
+    for index in 0..=255u64 {
+        for colon in [false, true] {
+            one(Msg::Sgr(vec![SgrItem::Palette { role: 0, index, colon }]));
+        }
+        one(Msg::FaceReport(vec![SgrItem::Palette { role: 1, index, colon: index % 2 == 0 }, SgrItem::Palette { role: 2, index: 255 - index, colon: index % 2 == 1 }]));
+    }
+    for index in [0u64, 15, 16, 231, 232, 255] {
+        for colon in [false, true] {
+            one(Msg::Sgr(vec![SgrItem::Palette { role: 1, index, colon }, SgrItem::Bold(true)]));
+            one(Msg::Sgr(vec![SgrItem::Palette { role: 2, index, colon }, SgrItem::Named { background: false, index: 1 }]));
+        }
+    }
+    for index in 0..16u64 {
+        for background in [false, true] {
+            one(Msg::Sgr(vec![SgrItem::Named { background, index }]));
+            one(Msg::FaceReport(vec![SgrItem::Named { background, index }, SgrItem::Named { background: !background, index: 15 - index }]));
+        }
+    }
+    one(Msg::Sgr(vec![SgrItem::DoubleUnderline]));
+    one(Msg::Sgr(vec![SgrItem::Bold(false)]));
+    one(Msg::Sgr(vec![SgrItem::DoubleUnderline, SgrItem::Bold(false)]));
+    one(Msg::FaceReport(vec![SgrItem::DoubleUnderline]));
+    for s in 0..=5u64 {
+        one(Msg::Sgr(vec![SgrItem::UnderlineColon(s)]));
+        one(Msg::FaceReport(vec![SgrItem::Underline(3), SgrItem::UnderlineColon(s)]));
+        one(Msg::Sgr(vec![SgrItem::UnderlineColon(s), SgrItem::Rgb { role: 2, r: 1, g: 2, b: 3, form: ColorForm::Semi }]));
+    }
+    one(Msg::Sgr(vec![SgrItem::Empty])); // CSI m
+    one(Msg::Sgr(vec![SgrItem::Empty, SgrItem::Empty])); // CSI ;m
+    one(Msg::Sgr(vec![SgrItem::Bold(true), SgrItem::Empty, SgrItem::Italic(true)])); // CSI 1;;3m
+    one(Msg::Sgr(vec![SgrItem::Empty, SgrItem::Bold(true)])); // CSI ;1m
+    one(Msg::Sgr(vec![SgrItem::Bold(true), SgrItem::Empty])); // CSI 1;m
+    one(Msg::Sgr(vec![SgrItem::Rgb { role: 0, r: 1, g: 2, b: 3, form: ColorForm::Semi }, SgrItem::Empty, SgrItem::Palette { role: 1, index: 9, colon: false }, SgrItem::Empty]));
+    one(Msg::FaceReport(vec![SgrItem::Empty]));
+    one(Msg::FaceReport(vec![SgrItem::Strike(true), SgrItem::Empty, SgrItem::Named { background: true, index: 12 }]));
+    // long tokens: the decoder's buffers spill to the heap above 32 bytes
+    let long_items: Vec<SgrItem> = (0..300).map(|_| gen_sgr_item(rng)).collect();
+    one(Msg::Sgr(long_items.clone()));
+    one(Msg::FaceReport(long_items));
+    one(Msg::Paste(gen_long_text(rng, 64 << 10, 64 << 10)));
+    one(Msg::KittyImage { id: 7, number: None, placement: Some(1), error: Some(gen_long_text(rng, 4 << 10, 4 << 10)) });
+    one(Msg::TermcapOk { entries: vec![(b"Co".to_vec(), (0..2048u32).map(|i| (i * 7 + i / 256) as u8).collect())], upper: false });
     // termcap
     one(Msg::TermcapOk { entries: vec![], upper: false });
     one(Msg::TermcapOk { entries: vec![(b"Co".to_vec(), b"256".to_vec())], upper: false });
@@ -1895,11 +2296,12 @@ fn corpus(ctx: &Ctx) -> Vec<(Vec<Msg>, Option<Vec<String>>)> {
         one(Msg::CsiU { code: 97 + mods % 26, alts: vec![], mods: Some(mods) });
     }
     // kitty graphics
-    one(Msg::KittyImage { id: 1, placement: None, error: None });
-    one(Msg::KittyImage { id: 4294967295, placement: Some(1), error: Some(b"ENOENT:no such image".to_vec()) });
-    one(Msg::KittyImage { id: 255, placement: Some(4294967295), error: None });
-    one(Msg::KittyImage { id: 65535, placement: None, error: Some(vec![]) });
-    one(Msg::KittyImage { id: 2, placement: None, error: Some(b"EINVAL:a;b=c,d \xe2\x82\xac\x07\n".to_vec()) });
+    one(Msg::KittyImage { id: 1, number: None, placement: None, error: None });
+    one(Msg::KittyImage { id: 4294967295, number: None, placement: Some(1), error: Some(b"ENOENT:no such image".to_vec()) });
+    one(Msg::KittyImage { id: 255, number: Some(7), placement: Some(4294967295), error: None });
+    one(Msg::KittyImage { id: 3, number: Some(4294967295), placement: None, error: None });
+    one(Msg::KittyImage { id: 65535, number: None, placement: None, error: Some(vec![]) });
+    one(Msg::KittyImage { id: 2, number: Some(0), placement: None, error: Some(b"EINVAL:a;b=c,d \xe2\x82\xac\x07\n".to_vec()) });
     // sizes
     for v in [0u64, 1, 9, 10, 255, 256, 65535] {
         one(Msg::Size { ch: v, cw: 65535 - v, ph: v, pw: v });
@@ -1914,10 +2316,10 @@ fn corpus(ctx: &Ctx) -> Vec<(Vec<Msg>, Option<Vec<String>>)> {
         one(Msg::Text(cp));
     }
     // every spelling of the naming table on its own: a key whose bytes are a proper prefix of other
-    // sequences stays pending at the end of the stream, and is delivered when a sequence follows
+    // sequences may stay pending at the end of the stream, and is delivered when a sequence follows
     for i in 0..keys().len() {
         if ctx.nonterminal.contains(&i) {
-            c.push((vec![Msg::Key(i)], Some(vec![])));
+            c.push((vec![Msg::Key(i)], None)); // delivered or pending: both admitted
             c.push((vec![Msg::Key(i), Msg::Cursor { row: 5, col: 7 }], None));
             c.push((vec![Msg::Key(i), Msg::Key(key_index(&[1])), Msg::Text(0xe9)], None));
             c.push((vec![Msg::Key(i), Msg::Text(0x20ac), Msg::Key(i), Msg::Key(key_index(b"\x1b[A"))], None));
@@ -1927,12 +2329,16 @@ fn corpus(ctx: &Ctx) -> Vec<(Vec<Msg>, Option<Vec<String>>)> {
     }
     // documented merges of a prefix key with following printable input
     let esc = key_index(&[27]);
-    c.push((vec![Msg::Key(esc), Msg::Text(b'a' as u32)], Some(vec!["key:1.97.2".into()])));
-    c.push((vec![Msg::Key(esc), Msg::Text(b'[' as u32), Msg::Text(b'A' as u32)], Some(vec![format!("key:{K_UP}.0.0")])));
-    c.push((vec![Msg::Key(key_index(b"\x1b[")), Msg::Text(b'A' as u32)], Some(vec![format!("key:{K_UP}.0.0")])));
-    c.push((vec![Msg::Key(key_index(b"\x1bO")), Msg::Text(b'P' as u32)], Some(vec![format!("key:{K_F}.1.0")])));
-    c.push((vec![Msg::Key(esc), Msg::Text(b'[' as u32)], Some(vec![])));
-    c.push((vec![Msg::Key(esc), Msg::Key(esc), Msg::Text(b'x' as u32)], Some(vec![format!("key:{K_ESC}.0.0"), "key:1.120.2".into()])));
+    c.push((vec![Msg::Key(esc), Msg::Text(b'a' as u32)], Some(Expect::exact(vec!["key:1.97.2".into()]))));
+    c.push((vec![Msg::Key(esc), Msg::Text(b'[' as u32), Msg::Text(b'A' as u32)], Some(Expect::exact(vec![format!("key:{K_UP}.0.0")]))));
+    c.push((vec![Msg::Key(key_index(b"\x1b[")), Msg::Text(b'A' as u32)], Some(Expect::exact(vec![format!("key:{K_UP}.0.0")]))));
+    c.push((vec![Msg::Key(key_index(b"\x1bO")), Msg::Text(b'P' as u32)], Some(Expect::exact(vec![format!("key:{K_F}.1.0")]))));
+    // ESC [ at the end: the merged key alt+[ is itself a prefix key
+    c.push((vec![Msg::Key(esc), Msg::Text(b'[' as u32)], Some(Expect { events: vec![], tail: Some(format!("key:{K_CHAR}.91.{MOD_ALT}")) })));
+    c.push((
+        vec![Msg::Key(esc), Msg::Key(esc), Msg::Text(b'x' as u32)],
+        Some(Expect::exact(vec![format!("key:{K_ESC}.0.0"), "key:1.120.2".into()])),
+    ));
     // neighbours
     let cpr = Msg::Cursor { row: 12, col: 40 };
     let mouse = Msg::Mouse { code: 0, x: 10, y: 20, press: true };
@@ -1947,11 +2353,11 @@ fn corpus(ctx: &Ctx) -> Vec<(Vec<Msg>, Option<Vec<String>>)> {
             Msg::Paste(b"[201~".to_vec()),
             Msg::Paste(vec![]),
             Msg::Text(b'~' as u32),
-            Msg::Color { name: ColorName::Background, spec: ColorSpec::Rgb(ch(4, 0xffff), ch(4, 0x8080), ch(4, 0)), fin: OscEnd::Bel },
+            Msg::Color { name: ColorName::Background, spec: ColorSpec::Rgb(ch(4, 0xffff), ch(4, 0x8080), ch(4, 0), false), fin: OscEnd::Bel },
             Msg::Text(7 + 0x20),
             Msg::TermcapOk { entries: vec![(b"Co".to_vec(), b"256".to_vec())], upper: false },
             Msg::FaceReport(vec![SgrItem::Bold(true)]),
-            Msg::KittyImage { id: 1, placement: None, error: None },
+            Msg::KittyImage { id: 1, number: Some(2), placement: None, error: None },
             Msg::CsiU { code: 97, alts: vec![], mods: Some(5) },
             Msg::KeyboardLevel(1),
             Msg::DeviceAttrs { attrs: vec![62, 4], trailing: false },
@@ -1968,20 +2374,29 @@ fn corpus(ctx: &Ctx) -> Vec<(Vec<Msg>, Option<Vec<String>>)> {
 fn replay(out: &mut Out, rng: &mut Rng, v: &Value) {
     let failure = &v["failure"];
     let input = &failure["input"];
-    if input["kind"].as_str() == Some("keytable") {
-        return; // the tie is re-run by `run`
+    let kind = input["kind"].as_str().unwrap_or("");
+    if kind == "keytable" || kind == "prefixkeys" {
+        return; // these ties are re-run by `run`
     }
     let Some(stream_hex) = input["stream"].as_str() else { return };
     let stream = unhex(stream_hex);
+    if kind == "grammar" {
+        let k = input["family"].as_u64().unwrap_or(0) as usize;
+        if k < 14 && !guarded(|| verif_c04::matcher_matches(k, &stream)).unwrap_or(false) {
+            out.fail(WHAT_GRAMMAR, input.clone(), json!("accepted"), json!("rejected"));
+        }
+    }
     let strings = |v: &Value| -> Option<Vec<String>> {
         v.as_array().map(|a| a.iter().filter_map(|s| s.as_str().map(String::from)).collect())
     };
-    let Some(expected) = strings(&input["expected"]).or_else(|| strings(&failure["expected"])) else { return };
+    let Some(events) = strings(&input["expected"]).or_else(|| strings(&failure["expected"])) else { return };
+    let expected = Expect { events, tail: input["optional_tail"].as_str().map(String::from) };
     let wires = strings(&input["msgs"]).unwrap_or_default();
-    let mut parts = vec![partition(rng, &stream, 0), partition(rng, &stream, 1)];
+    let mut parts = vec![partition(rng, stream.len(), 0), partition(rng, stream.len(), 1)];
     match strings(&input["partition"]) {
-        Some(p) => parts.push(p.iter().map(|c| unhex(c)).collect()),
-        None => parts.push(partition(rng, &stream, 2)),
+        // the recorded reads (they concatenate to the stream)
+        Some(p) if p.iter().map(|c| unhex(c)).collect::<Vec<_>>().concat() == stream => parts.push(p.iter().map(|c| unhex(c).len()).collect()),
+        _ => parts.push(partition(rng, stream.len(), 2)),
     }
     let ok = check_stream(out, &stream, &wires, &expected, &parts);
     out.case(&hex(&stream), true);
@@ -1994,12 +2409,13 @@ pub fn run(cfg: &Cfg, out: &mut Out, rng: &mut Rng) {
     let mut ctx = Ctx::new(cfg);
     key_tie(&ctx, out);
     sd_line(&ctx, out);
+    palette_check(out);
     if let Some(v) = &cfg.replay {
         replay(out, rng, v);
         return;
     }
     fixed_lines(out, rng);
-    for (msgs, expected) in corpus(&ctx) {
+    for (msgs, expected) in corpus(&ctx, rng) {
         run_case(&mut ctx, out, rng, &msgs, expected);
     }
     let corpus_streams = ctx.streams;
@@ -2009,5 +2425,5 @@ pub fn run(cfg: &Cfg, out: &mut Out, rng: &mut Rng) {
         run_case(&mut ctx, out, rng, &msgs, None);
     }
     out.extra("streams", json!({"corpus": corpus_streams, "generated": n, "partitions_each": 3}));
-    out.extra("correspondence_budget_left", json!(ctx.budget));
+    out.extra("correspondence_budget_left", json!({"lines": ctx.budget, "long_tokens": ctx.long_budget, "composed_streams": ctx.stream_budget, "composed_long_streams": ctx.long_stream_budget, "match_mid_tokens": ctx.match_budget}));
 }
